@@ -105,7 +105,9 @@ def run(R):
               "channels), containing its corners (single-channel captures; volume compared with the unit-edge regular simplex) and "
               "whole-number captures handed in as integer arrays / lists / Fortran / strided views; estimator systems with fewer "
               "sources than receptors, with everywhere-positive, banded (compact overlapping support) and scattered-zero filters and "
-              "broad or band-limited sources), "
+              "broad or band-limited sources, in the default adaptational state or with a registered K (scalar / per receptor) and a dark "
+              "baseline capture (scalar / per receptor / in a single receptor or some receptors only; 1/1024 of to the order of the light-induced captures): the "
+              "fraction in absolute capture lies in (0, 1] in every state), "
               "clouds with NO MORE POINTS THAN DIMENSIONS: 2..d points in 2-5 dimensions, affinely independent (a simplex within its "
               "span) or dependent (repeated vertex, point on an edge, convex combination, planar polygon; collinear points) "
               "embedded by a dyadic affine map / a rotation / into coordinate axes, handed in as array / Fortran / strided / list, "
@@ -427,7 +429,7 @@ def run(R):
         elif va < v - 1e-9 * (abs(v) + 1.0) or abs(va - exact) > 1e-9 * (abs(exact) + 1.0):
             R.failB(dict(c, impl=[v, va]), "volume changed from %r to %r when a point of the hull was added" % (v, va), sig + ":added-point")
     # estimator: fractional gamut in absolute capture lies in (0, 1]
-    for k in range(n + 100, n + 100 + (6 if R.tier == "quick" else 60)):
+    for k in range(n + 100, n + 100 + (40 if R.tier == "quick" else 90)):
         if not R.want(k):
             continue
         rng = R.rng(3, k)
@@ -469,9 +471,43 @@ def run(R):
         c = dict(k=k, what="estimator_gamut", filters=filt, sources=src, metric=metric, filter_support=support, source_support=src_support)
         R.count("what:estimator_gamut"); R.count("estimator_gamut:%s" % ("fewer-sources-than-receptors" if ns < nf else "sources>=receptors"))
         R.count("estimator_gamut:filters-%s" % support); R.count("estimator_gamut:sources-%s" % src_support)
-        st, g = call(lambda: dreye.ReceptorEstimator(filt, domain=1.0, sources=src, ub=np.ones(ns)).compute_gamut(metric=metric, seed=1, relative=False))
+        # adaptational state of the estimator (own stream): the default (K = 1, baseline = 0) or a registered one - K a scalar or one
+        # value per receptor; a dark baseline capture as a scalar, one value per receptor, or in a single receptor only (dark noise of
+        # one channel), from 1/1024 of to the same order as the light-induced captures. Absolute (light-induced) capture is what the
+        # property speaks about: the fraction lies in (0, 1] whatever state is registered; whether it equals the fraction of the same
+        # system in the default state is recorded.
+        ra = R.rng(14, k)
+        kkind = str(ra.choice(["default", "default", "scalar", "per-receptor"]))
+        bkind = str(ra.choice(["default", "scalar", "per-receptor", "single-receptor", "single-receptor", "single-receptor", "some-receptors"]))
+        ekw = {}
+        if kkind == "scalar":
+            ekw["K"] = float(dyadic(ra, 0.25, 4, 2))
+        elif kkind == "per-receptor":
+            ekw["K"] = dyadic(ra, 0.25, 4, 2, size=nf)
+        bmag = float(2.0 ** -int(ra.integers(0, 11)))
+        if bkind == "scalar":
+            ekw["baseline"] = bmag * float(dyadic(ra, 1, 4, 2))
+        elif bkind == "per-receptor":
+            ekw["baseline"] = bmag * dyadic(ra, 0, 4, 2, size=nf)
+        elif bkind == "single-receptor":
+            b_ = np.zeros(nf); b_[int(ra.integers(nf))] = bmag * float(dyadic(ra, 1, 4, 2)); ekw["baseline"] = b_
+        elif bkind == "some-receptors":
+            on_ = ra.random(nf) < 0.5; on_[int(ra.integers(nf))] = True
+            ekw["baseline"] = np.where(on_, bmag * dyadic(ra, 1, 4, 2, size=nf), 0.0)
+        c.update(K=ekw.get("K", "default (1.0)"), baseline=ekw.get("baseline", "default (0.0)"))
+        R.count("estimator_gamut:K-%s" % kkind); R.count("estimator_gamut:baseline-%s" % bkind)
+        ekw_given = {q: (as_given(ra, v, R, "estimator-" + q, kinds=("same", "strided", "list")) if isinstance(v, np.ndarray) else v) for q, v in ekw.items()}
+
+        def impl_est():
+            g_ = dreye.ReceptorEstimator(filt, domain=1.0, sources=src, ub=np.ones(ns), **ekw_given).compute_gamut(metric=metric, seed=1, relative=False)
+            g0_ = dreye.ReceptorEstimator(filt, domain=1.0, sources=src, ub=np.ones(ns)).compute_gamut(metric=metric, seed=1, relative=False) if ekw else g_
+            return g_, g0_
+        st, g = call(impl_est)
         R.case(c, (k,))
         if st != "ok":
             R.failB(dict(c, impl_error=g), "compute_gamut raised %s" % g, "C18:estimator_gamut:raises:" + st); continue
+        g, g0 = float(g[0]), float(g[1])
+        if ekw:
+            R.count("estimator_gamut:absolute-fraction-%s" % ("same-as-in-default-state" if abs(g - g0) <= 1e-9 * (abs(g0) + 1) else "differs-from-default-state(recorded)"))
         if not (0 < float(g) <= 1 + 1e-9):
-            R.failB(dict(c, impl=float(g)), "fractional gamut %r not in (0, 1]" % float(g), "C18:estimator_gamut:range:" + metric)
+            R.failB(dict(c, impl=float(g), in_default_state=g0), "fractional gamut %r not in (0, 1]" % float(g), "C18:estimator_gamut:range:" + metric)
